@@ -421,6 +421,27 @@ def blockSync (applies : List (Blk ι) → Blk ι → Bool) (n fin myMhp : Nat) 
             | (c', none) =>
               if dl.2 then ⟨c', [], false, none⟩ else ⟨c', temp, false, some .download⟩
 
+/-- the `NodeInfo` list `blockSyncer.Sync` builds: connected peer number `i` answered the
+`getLastBlock` request of the peer selection with a header (height, maxHeightPrevoted, id) or the
+request failed (`none`: error response, time-out, undecodable block) — failed peers contribute
+NOTHING to the list -/
+def answeringFrom : Nat → List (Option (Nat × Nat × ι) × Peer ι) → List (Tip ι)
+  | _, [] => []
+  | i, (none, _) :: r => answeringFrom (i + 1) r
+  | i, (some (h, m, id), _) :: r => ⟨i, h, m, id⟩ :: answeringFrom (i + 1) r
+
+/-- `blockSyncer.Sync` from the start: all connected peers are asked for their last block, the best
+answer is selected (`getBestNodeInfo`, map visiting order `order`, random value `rnd`; no answer at
+all: "peer does not exist to select"), then the round of `blockSync` runs with the selected peer. -/
+def blockSyncPeers (applies : List (Blk ι) → Blk ι → Bool) (n fin myMhp : Nat) (q : List (Blk ι))
+    (peers : List (Option (Nat × Nat × ι) × Peer ι)) (order : List ι) (rnd : Nat) : Out ι :=
+  match bestWith order rnd (answeringFrom 0 peers) with
+  | none => ⟨q, [], false, some .noPeer⟩
+  | some best =>
+    match peers[best.peer]? with
+    | some p => blockSync applies n fin myMhp q best p.2
+    | none => ⟨q, [], false, some .noPeer⟩
+
 /-- `Syncer.shouldFastSync` / `shouldSync`: which synchroniser `Syncer.Sync` runs.
 `genIn`: the generator of the received block is a current validator; `stale`: more than three
 rounds of slots have passed since the finalized block. -/
